@@ -31,6 +31,17 @@ import logging
 log = logging.getLogger(__name__)
 
 
+def locked(method):
+    # Run a socket method under the socket lock so that the state it
+    # checks can not change (close) before it starts to wait.
+    def wrapper(self, *args, **kwargs):
+        with self.lock:
+            return method(self, *args, **kwargs)
+    wrapper.__name__ = method.__name__
+    wrapper.__doc__ = method.__doc__
+    return wrapper
+
+
 class TransmissionControlObject(object):
     class State(object):
         def __init__(self):
@@ -216,6 +227,7 @@ class RawAccessPoint(TransmissionControlObject):
             raise err.Error(errno.ESHUTDOWN)
         return super(RawAccessPoint, self).getsockopt(option)
 
+    @locked
     def poll(self, event, timeout):
         if self.state.SHUTDOWN:
             raise err.Error(errno.ESHUTDOWN)
@@ -223,6 +235,7 @@ class RawAccessPoint(TransmissionControlObject):
             raise err.Error(errno.EINVAL)
         return super(RawAccessPoint, self).poll(event, timeout) is not None
 
+    @locked
     def send(self, send_pdu, flags):
         if self.state.SHUTDOWN:
             raise err.Error(errno.ESHUTDOWN)
@@ -230,6 +243,7 @@ class RawAccessPoint(TransmissionControlObject):
         super(RawAccessPoint, self).send(send_pdu, flags)
         return self.state.ESTABLISHED is True
 
+    @locked
     def recv(self):
         if self.state.SHUTDOWN:
             raise err.Error(errno.ESHUTDOWN)
@@ -287,6 +301,7 @@ class LogicalDataLink(TransmissionControlObject):
             self.peer = dest
             return self.peer > 0
 
+    @locked
     def poll(self, event, timeout):
         if self.state.SHUTDOWN:
             raise err.Error(errno.ESHUTDOWN)
@@ -294,6 +309,7 @@ class LogicalDataLink(TransmissionControlObject):
             raise err.Error(errno.EINVAL)
         return super(LogicalDataLink, self).poll(event, timeout) is not None
 
+    @locked
     def sendto(self, message, dest, flags):
         if self.state.SHUTDOWN:
             raise err.Error(errno.ESHUTDOWN)
@@ -305,6 +321,7 @@ class LogicalDataLink(TransmissionControlObject):
         super(LogicalDataLink, self).send(send_pdu, flags)
         return self.state.ESTABLISHED is True
 
+    @locked
     def recvfrom(self):
         if self.state.SHUTDOWN:
             raise err.Error(errno.ESHUTDOWN)
@@ -549,6 +566,7 @@ class DataLinkConnection(TransmissionControlObject):
 
             raise RuntimeError("only I or DISC expected, not " + rcvd_pdu.name)
 
+    @locked
     def poll(self, event, timeout):
         if self.state.SHUTDOWN:
             raise err.Error(errno.ESHUTDOWN)
